@@ -466,6 +466,7 @@ class Builder:
         self.rng, self.spec = rng, spec
         self.names = Names(rng, [t for t, _ in spec.types])
         self.used = {t: set() for t, _ in spec.types}       # values per type
+        self.bit_types = set()
 
     def eval_block(self, specs):
         """[(name, value, ctype)] of a self-contained block (refs only to its own earlier constants)"""
@@ -490,7 +491,8 @@ class Builder:
         return ents
 
     def other_type(self, T):
-        o = [t for t, _ in self.spec.types if t != T]
+        # never a bit-flag enum: a stray constant would take it out of the bit-flag grammar (C14 bits_declared)
+        o = [t for t, _ in self.spec.types if t != T and t not in self.bit_types]
         return self.rng.choice(o) if o else None
 
     # -- block styles ---------------------------------------------------------
@@ -773,8 +775,11 @@ def _gen_enum_pkg(rng, name, profile, max_hb, allow_gorm):
             # template's i_ / v_): kept out of the -bit stream, its witnesses are replayed by c14.py
             want_bit = False
         if want_bit:
-            blocks, feats = gen_bit_type(b, T, rng, max_hb)
             bit_types.add(T)
+    b.bit_types = bit_types
+    for T, kind in spec.types:
+        if T in bit_types:
+            blocks, feats = gen_bit_type(b, T, rng, max_hb)
         else:
             blocks, feats = gen_plain_type(b, T, rng)
         per_type_blocks[T] = blocks
